@@ -419,10 +419,11 @@ def isSymmetric [BEq α] (n : Nat) (w : Nat → Nat → α) : Bool :=
 
 /-! ### HITS post-processing (`ranking/hits.py`) -/
 
-/-- `if (v > 0).sum() > (v < 0).sum(): clip(v, 0, None) else clip(-v, 0, None)` -/
+/-- `pos, neg = v[v > 0].sum(), -v[v < 0].sum(); if pos > neg: clip(v, 0, None) else clip(-v, 0, None)` :
+    the sign that carries the mass is kept -/
 def hitsPost (v : List α) : List α :=
-  let pos := (v.filter fun x => 0 < x).length
-  let neg := (v.filter fun x => x < 0).length
+  let pos := ((v.filter fun x => 0 < x)).sum
+  let neg := 0 - ((v.filter fun x => x < 0)).sum
   if neg < pos then v.map fun x => if x < 0 then 0 else x
   else v.map fun x => if (0 - x) < 0 then 0 else 0 - x
 
